@@ -60,8 +60,8 @@ Holds(name, c, ev, pos) ==
 Init == tid \in 1..Len(All) /\ l = 1 /\ bad = {}
 
 Failing(t, pos) == {x \in Judge : ~Holds(x, DAll[t], E(t), pos)}
-\* record only the first failing position of each clause
-Record(t, pos) == bad \cup {[cl |-> x, at |-> pos] : x \in {y \in Failing(t, pos) : \A b \in bad : b.cl # y}}
+\* every failing (clause, position) pair is recorded, so each can be attributed separately
+Record(t, pos) == bad \cup {[cl |-> x, at |-> pos] : x \in Failing(t, pos)}
 
 Consume(kind) == /\ l <= Len(E(tid)) /\ E(tid)[l].k = kind
                  /\ bad' = Record(tid, l) /\ l' = l + 1 /\ UNCHANGED tid
